@@ -114,6 +114,18 @@ def run(ctx):
   ctx.check(okb and unpack, 'C03.kinds', construct(ps), 'a binding statement carries (scope, selector, parameter, value) from the key splitter in that order',
             'BindingStatement fields are no longer (scope, selector, arg_name, value) from parse_binding_key', ps.loc(), instance='binding-fields')
 
+  # keyword statements are recognised only when the name is followed by neither '=' nor ':' (so `include = 1` / `from: ...` stay bindings)
+  g_ps, f_ps = std_facts(prog, ps)
+  kw_nodes = [n for n in g_ps.live_nodes() if any(prog.resolve_call(ps, cc) == CP + '._parse_import' for cc in calls_of_node(n)) or
+              (n.kind == 'stmt' and isinstance(n.ast, ast.Assign) and isinstance(n.ast.value, ast.Call) and u(n.ast.value.func) == 'IncludeStatement')]
+  okd = bool(kw_nodes)
+  for n in kw_nodes:
+    fs = f_ps[n.id]
+    okd = okd and ('c', "self._current_token.string == '='", False) in fs and ('c', "self._current_token.string == ':'", False) in fs
+  ctx.check(okd, 'C03.kinds', construct(ps), "`import` / `from` / `include` are keywords only when not followed by '=' or ':'",
+            "a statement whose name is import / from / include is treated as a keyword statement even when it is followed by '=' or ':': "
+            "the macro definition `include = 'x'` (or a block named so) is no longer read as a binding", ps.loc(), instance='dispatch-order')
+
   # ---- C03.queue
   init = c.methods.get('__init__')
   qinit = [n for n in walk_local(init.node) if isinstance(n, ast.Assign) and u(n.targets[0]) == 'self._statements_queue']
@@ -234,6 +246,38 @@ def normal_form(ctx):
       if rl and all(lasts and all(ends_skipping(m, n) for n in lasts) for _, lasts in rl):
         enders.add(m.qual)
         changed = True
+  # before every `_expect(NEWLINE)` the last cursor movement skipped trailing comments
+  def skips_comments(m, node):
+    for cc in calls_of_node(node):
+      q = indirect_callees(prog, m, cc)
+      if any(x in enders for x in q):
+        return True
+      if prog.resolve_call(m, cc) == CP + '._skip' and cc.args and 'COMMENT' in u(cc.args[0]):
+        return True
+    return False
+  for name, m in c.methods.items():
+    g = prog.cfg(m)
+    cids = {n.id: n for n in g.live_nodes() if any(q in cons for cc in calls_of_node(n) for q in indirect_callees(prog, m, cc))}
+    for n in g.live_nodes():
+      exp = [cc for cc in calls_of_node(n) if prog.resolve_call(m, cc) == CP + '._expect' and cc.args and u(cc.args[0]) == 'tokenize.NEWLINE']
+      if not exp:
+        continue
+      lasts, seen, stack = [], set(), [a for a, _ in g.pred[n.id]]
+      while stack:
+        x = stack.pop()
+        if x in seen:
+          continue
+        seen.add(x)
+        if x in cids:
+          lasts.append(cids[x])
+          continue
+        stack.extend(a for a, _ in g.pred[x])
+      bad = [x for x in lasts if not skips_comments(m, x)]
+      ctx.check(not bad, 'C03.normal-form', construct(m),
+                'the NEWLINE expected at line %d is preceded, on every path, by a step that skips a trailing comment' % n.lineno,
+                'NEWLINE is expected at line %d right after `%s` (line %d), which does not skip a trailing comment: a comment at the end of that line '
+                '(after a block header `scope/name:` or after a block member) is a syntax error, although the same statements without it parse'
+                % (n.lineno, bad[0].text() if bad else '', bad[0].lineno if bad else 0), m.loc(n.ast), instance='before-newline@%s:%d' % (name, len(lasts)))
   pv, alts = alternatives(ctx)
   for name in alts + ['parse_value']:
     m = ctx.func('%s.%s' % (CP, name))
